@@ -178,6 +178,12 @@ class FieldData:
       if (fieldname == self.__class__.STORAGE_KEY) or \
         (self.__class__.STORAGE_KEY == "name" and \
         fieldname == self.__class__.NAME_FIELD):
+         if isinstance(value, str):
+           # the identifier is the key of the line in the Gfa: refuse an
+           # invalid one before the line is unregistered
+           gfapy.Field._validate_gfa_field(value,
+               self._field_datatype(self._dealias_fieldname(fieldname)),
+               fieldname)
          if value is not None and not gfapy.is_placeholder(value):
            previous = self._gfa.line(str(value))
            if previous is not None and previous is not self:
